@@ -15,8 +15,8 @@ import (
 	chunker "github.com/ipfs/boxo/chunker"
 	"github.com/ipfs/boxo/files"
 	"github.com/ipfs/boxo/ipld/merkledag"
-	"github.com/ipfs/boxo/ipld/unixfs/importer"
 	unixfile "github.com/ipfs/boxo/ipld/unixfs/file"
+	"github.com/ipfs/boxo/ipld/unixfs/importer"
 	"github.com/ipfs/boxo/path"
 	blocks "github.com/ipfs/go-block-format"
 	cid "github.com/ipfs/go-cid"
@@ -127,17 +127,34 @@ func (d *dagAPI) Get(ctx context.Context, c cid.Cid) (ipld.Node, error) {
 		w.mu.Unlock()
 		return nil, errors.New("sim: node is down")
 	}
-	if data, ok := d.inc.Node.Disk.blocks[c.KeyString()]; ok {
+	data, have := d.inc.Node.Disk.blocks[c.KeyString()]
+	if have && !d.inc.slowLocal {
 		w.mu.Unlock()
 		return decodeBlock(c, data)
 	}
-	if w.Offline || d.inc.offline {
+	// (slowLocal: reading a local block takes a kernel step too, like a slow disk)
+	if !have && (w.Offline || d.inc.offline) {
 		w.mu.Unlock()
 		return nil, ipld.ErrNotFound{Cid: c}
 	}
 	d.inc.pubseq++
 	w.pseq++
 	p := &Pend{kind: pkWant, src: d.inc.Node.Idx, dst: d.inc.Node.Idx, seq: d.inc.pubseq, pseq: w.pseq, c: c, done: make(chan error, 1), inc: d.inc}
+	if w.EagerFetch && !d.inc.slowLocal && w.FailWant[c.String()] == 0 {
+		// eager exchange: a block that a linked live peer holds arrives at once, so that a
+		// node's fetch pipeline runs on without the kernel (its goroutines then interleave
+		// with each other at the inserted yield points)
+		if prov := w.providerLocked(p); prov != nil {
+			data := prov.Disk.blocks[c.KeyString()]
+			w.diskApplyLocked(d.inc, Effect{Kind: "block", Key: c.KeyString(), Val: data})
+			w.stat("want-eager")
+			if w.LogObs {
+				w.ob("want-eager n%d #%d", p.src, p.seq)
+			}
+			w.mu.Unlock()
+			return decodeBlock(c, data)
+		}
+	}
 	w.pending = append(w.pending, p)
 	w.stat("want")
 	if w.LogObs {
